@@ -31,7 +31,7 @@ def _mc_configs(ctx):
 
 
 def _simulate(ctx):
-    sim = tlc.run(ctx, "QuotaTree", "QuotaTree_sim.cfg", simulate={"num": ctx.pick(40, 300), "file": True},
+    sim = tlc.run(ctx, "QuotaTree", "QuotaTree_sim.cfg", simulate={"num": ctx.pick(25, 300), "file": True},
                   depth=ctx.pick(8, 10), seed=ctx.seed, workers=1, timeout=1200, name="sim")
     if sim.kind is not None and sim.kind != "invariant":
         raise InfraError("TLC simulation ended unexpectedly: %s" % sim.summary())
